@@ -18,19 +18,20 @@ HEADER = ('From FJ Require Import Lib.Base Spec.MachineSpec Model.Ast Spec.Denot
           'Local Open Scope string_scope.\nLocal Open Scope N_scope.\n')
 
 MAX_DIAG = 64
-# False = /repo as it is; set to True once the fix of finding F8 (range check of op words in labels_resolve) has landed:
-# Layout.v then rejects out-of-range op / wflip words with the 'Not enough space ... in op' exception (KWflipValue)
-STRICT_RANGE = False
+# True = /repo since the fix of finding F8 (b770ddf): out-of-range op / wflip words are rejected with the
+# 'Not enough space ... in op' exception (KWflipValue in Layout.v); False = the code before that fix
+STRICT_RANGE = True
 LIBKINDS = ['KLabelTwice', 'KPadEval', 'KPadNonPositive', 'KPadUnaligned', 'KSegmentEval', 'KSegmentUnaligned',
             'KReserveEval', 'KReserveUnaligned', 'KExprFold', 'KOpEval', 'KWflipValue', 'KBoundsUnaligned', 'KNoSpace',
-            'KAddSegment', 'KNoFirstOp', 'KFirstNotSegment', 'KNotPrimitive']
+            'KAddSegment', 'KNoFirstOp', 'KFirstNotSegment', 'KNotPrimitive', 'KPadTooHigh']
 
 # recorded defects of the unchanged tree: the theorems carry these guards; a case failing the specification only
 # because of one of them is reported as that finding (KNOWN-FINDING when listed in known_findings.json)
 DEFECTS = {
     'aux-op-on-io-cell': 'a wflip chain op is placed in the pad hole / wflip area at address 2w (the op holding the '
                          'input cell): executing the wflip consumes input and may corrupt its own jump word',
-    'jump-word-wrapped': 'fjm versions 2/3 store a jump word outside [0,2^w) modulo 2^w instead of rejecting the program',
+    'jump-word-wrapped': 'REGRESSION of fixed finding F8: fjm versions 2/3 store a jump word outside [0,2^w) modulo 2^w '
+                         'instead of rejecting the program',
     'negative-reserve-accepted': 'a `reserve` of a negative size that moves the address back to the start of the current '
                                  'segment piece is accepted: the ops before it stay in the image and shift every later op',
     'generated-label-collision': "a user label whose full name is '_.wflip_area_start_<k>' (label wflip_area_start_<k> in "
@@ -45,6 +46,7 @@ def classify_error(err):
         for pat, k in (('label declared twice', 'KLabelTwice'), ("Can't evaluate how much to pad", 'KPadEval'),
                        ("'pad' must get a positive", 'KPadNonPositive'),
                        ("'pad' requires the current address to be op-aligned", 'KPadUnaligned'),
+                       ('padding ops, which exceeds the', 'KPadTooHigh'),
                        ('segment ops must have a w-aligned', 'KSegmentUnaligned'), ('segment failed', 'KSegmentEval'),
                        ('reserve ops must have a w-aligned', 'KReserveUnaligned'), ('reserve failed', 'KReserveEval')):
             if pat in msg:
@@ -259,7 +261,7 @@ def evaluate(ctx, name, jobs, results, count=True):
 
 def run(ctx):
     fw.static_proofs(ctx, ['Properties/C02.v'])
-    n = ctx.n(4000, 40000)
+    n = ctx.n(2000, 40000)
     jobs = pg.gen_jobs(ctx.rng, n)
     batch = 6000
     for b in range(0, len(jobs), batch):
